@@ -488,6 +488,20 @@ fn main() {
             Ok(format!("status {}", code))
         });
     }
+    // ---------------------------------------------------------------- C12: the command line writes the listeners of a project without commands
+    for mode in ["none", "zod"] {
+        rep.case("events_without_commands_get_their_listeners", &format!("--validation {} a project with one emit and no command", mode), &|| {
+            let p = project(&root, &format!("evonly_{}", mode), Some(conf_plain));
+            let pp = p.join("src-tauri"); let gp = p.join("src/generated");
+            fs::write(pp.join("src/lib.rs"), "use tauri::Emitter;\npub fn start(app: tauri::AppHandle) { app.emit(\"beat\", 1u32).ok(); }\n").map_err(|e| e.to_string())?;
+            let (code, text) = run(&cli, &p, &["generate", "--project-path", pp.to_str().unwrap(), "--output-path", gp.to_str().unwrap(), "--validation", mode, "--force"])?;
+            if code != 0 { return Err(format!("status {}: {}", code, text.chars().take(200).collect::<String>())); }
+            let ev = fs::read_to_string(gp.join("events.ts")).map_err(|_| format!("no events.ts was written: {}", text.chars().take(200).collect::<String>()))?;
+            if !ev.contains("('beat',") { return Err("events.ts has no listener subscribed to 'beat'".into()); }
+            Ok("ok".into())
+        });
+    }
+
     // ---------------------------------------------------------------- findings of the bug hunt that are recorded, not repaired (known_findings.json lists each input)
     // C16: the configured output directory is used as given, also when its name is not UTF-8
     #[cfg(unix)]
